@@ -17,8 +17,14 @@ def union_word_leaf(word, align_of=None):
     (for alignment-dependent tests such as `ptr.is_aligned()`)."""
 
     def leaf(e):
-        if e[0] == "proj" and e[2] and e[2][-1] == "p":
-            return word
+        if e[0] == "proj" and e[2]:
+            names = [n for n in e[2] if n != "*"]
+            while len(names) > 1 and names[-1] == "0":
+                names = names[:-1]  # the word inside a private newtype (`self.p.0`)
+            if names and names[-1] == "p":
+                return word
+            if e[1][0] == "proj":  # `(arg.p).0` written as a projection of a projection
+                return leaf(("proj", e[1][1], tuple(e[1][2]) + tuple(e[2])))
         if e[0] == "call" and e[2] == "is_aligned" and e[3] and align_of is not None:
             a = align_of.get(e[4][0] if e[4] else None)
             v = symx.eval_int(e[3][0], leaf)
@@ -163,8 +169,38 @@ def _select(e, leaf, bits):
 def run(ctx, rep):
     # "the count moves by one on the right allocation" - and by nothing on every other path, unwinding included, of the union's
     # own operations and of what they are built from (the balance rules of C01/C04/C07)
-    balance.rule_bal(ctx, rep)
-    balance.rule_unw(ctx, rep)
+    def scope(F):
+        up = (F.handle_paths.get("ArcUnion"), F.handle_paths.get("ArcUnionBorrow"))
+        return balance.scope_closure(F, [b for b in F.body_list if b["kind"] in ("Fn", "AssocFn") and F.ty((b.get("impl") or {}).get("self_ty", 0)).get("path") in up])
+
+    balance.rule_bal(ctx, rep, scope=scope)
+    balance.rule_unw(ctx, rep, scope=scope)
+    from . import c13
+
+    class _OnlyUnionAuto:
+        """Forwards the R-AUTO instances about ArcUnion only (the rest of that rule group is C13's)."""
+
+        def __init__(self, rep):
+            self._rep = rep
+
+        def __getattr__(self, name):
+            return getattr(self._rep, name)
+
+        def ok(self, rule, key, *a, **k):
+            if rule == "R-AUTO" and key.startswith("ArcUnion:"):
+                self._rep.ok(rule, key, *a, **k)
+
+        def bad(self, rule, key, *a, **k):
+            if rule == "R-AUTO" and key.startswith("ArcUnion:"):
+                self._rep.bad(rule, key, *a, **k)
+
+        def floor(self, *a, **k):
+            pass
+
+        def sample(self, *a, **k):
+            pass
+
+    c13.rule_auto(ctx, _OnlyUnionAuto(rep), only=("ArcUnion",))  # "as a handle of that type": the union is Send/Sync exactly when Arc<A> and Arc<B> both are (C13's impl table)
     balance.rule_count_addr(ctx, rep)  # the union reaches the count only through typed handles, never as "the word before the payload"
     balance.rule_release_retarget(ctx, rep)  # release-then-store through `&mut Handle` must store on unwinding exits too
     for tag, F, E in ctx.each():
@@ -195,6 +231,7 @@ def run(ctx, rep):
             rep.ok("R-LOWBIT", "payload-address-parity", "repr(C) block, %d-byte aligned count word first: payload address is even for every payload alignment" % word, cfg=tag)
         else:
             rep.bad("R-LOWBIT", "payload-address-parity", "bit 0 of a payload address is not guaranteed free (block not repr(C) with the count word first, or %s)" % (bad,), None, tag)
+    rep.floor("R-AUTO", 2, "Send and Sync of ArcUnion")
     rep.floor("R-TAG", 5, "2 constructors, is_first, is_second, strip (both variants in one instance)")
     rep.floor("R-ARMS", 5, "Clone, Drop, as_first, as_second, PartialEq")
     rep.floor("R-LOWBIT", 1, "parity lemma")
